@@ -83,6 +83,8 @@ def run_ops(ops):
     base = None
     b = ArgsFormatBuilder()
     out = []
+    snap = b.format
+    snap_then = table(snap)
     for op in ops:
         k, el = op["op"], op.get("el", "")
         ev = {"op": k, "el": el, "res": "ok", "cls": ""}
@@ -114,7 +116,11 @@ def run_ops(ops):
             ev["res"] = "reject"
             ev["cls"] = type(e).__name__
         ev["tb"] = table(b)
-        ev["tf"] = table(b.format)
+        ev["snapThen"] = snap_then
+        ev["snapNow"] = table(snap)  # the format object handed out before this operation
+        snap = b.format
+        snap_then = table(snap)
+        ev["tf"] = snap_then
         out.append(ev)
     return out
 
